@@ -100,6 +100,8 @@ impl<T: Sync + Send + 'static> Worker<T> {
             let in_flight = Mutex::new(&mut self.in_flight);
             let items = new_snapshot.map(|(idx, item)| {
                 let Some(item) = item else {
+                    #[cfg(nucleo_verif)]
+                    crate::verif::point("run.in_flight_push", idx as u64);
                     in_flight.lock().push(idx);
                     unmatched.fetch_add(1, atomic::Ordering::Relaxed);
                     return Match {
@@ -153,6 +155,8 @@ impl<T: Sync + Send + 'static> Worker<T> {
     }
 
     pub(crate) unsafe fn run(&mut self, pattern_status: pattern::Status, cleared: bool) {
+        #[cfg(nucleo_verif)]
+        crate::verif::point("run.start", cleared as u64);
         self.running = true;
         self.was_canceled = false;
 
@@ -166,9 +170,13 @@ impl<T: Sync + Send + 'static> Worker<T> {
         if self.pattern.is_empty() {
             self.reset_matches();
             self.process_new_items_trivial();
+            #[cfg(nucleo_verif)]
+            crate::verif::point("run.before_flag_load", 0);
             if self.should_notify.load(atomic::Ordering::Relaxed) {
                 (self.notify)();
             }
+            #[cfg(nucleo_verif)]
+            crate::verif::point("run.end", 0);
             return;
         }
 
@@ -204,6 +212,8 @@ impl<T: Sync + Send + 'static> Worker<T> {
             self.process_new_items(&unmatched);
         }
 
+        #[cfg(nucleo_verif)]
+        crate::verif::point("run.before_sort", self.matches.len() as u64);
         let canceled = par_quicksort(
             &mut self.matches,
             |match1, match2| {
@@ -245,10 +255,14 @@ impl<T: Sync + Send + 'static> Worker<T> {
         } else {
             self.matches
                 .truncate(self.matches.len() - take(unmatched.get_mut()) as usize);
+            #[cfg(nucleo_verif)]
+            crate::verif::point("run.before_flag_load", 1);
             if self.should_notify.load(atomic::Ordering::Relaxed) {
                 (self.notify)();
             }
         }
+        #[cfg(nucleo_verif)]
+        crate::verif::point("run.end", canceled as u64);
     }
 
     fn reset_matches(&mut self) {
